@@ -14,6 +14,7 @@ from ..api import Case, Suite
 
 ID = "C08"
 PROPS_FILE = "Props/C08.v"
+PROPS_EXTRA = ["Props/C08e2e.v"]   # glue: compiled recipes and their scalings are strictly valid (Proofs/GlueValid.v)
 GEN_DEPS: List[str] = []
 ALLOWED_AXIOMS: List[str] = []
 THEOREMS = {
@@ -33,6 +34,7 @@ THEOREMS = {
     "C08_following_terminates": "full",
     "C08_strict_ex": "example",
     "C08_refusals_ex": "example",
+    "C08_compiled_valid": "full", "C08_compiled_scaled_valid": "full", "C08_compiled_scaled_accepted": "full", "C08_compiled_iter_scaled_valid": "full", "C08_source_valid": "full", "C08_source_scaled_valid": "full", "C08_source_iter_scaled_valid": "full", "C08e2e_hyps": "example", "C08e2e_instance": "example",
 }
 TRUSTED = [
     "Coq 8.16.1 kernel (coqc, vm_compute for correspondence only)",
@@ -204,7 +206,6 @@ def strict_violation(recipes: List[Any], names: bool = True) -> Optional[str]:
     (== and identical rendering), multi-output sub recipes only at roots, >= 1 output, names unique ignoring case,
     'follows' chain consistent."""
     import recipe_grid.recipe as R
-    from recipe_grid.compiler import normalise_output_name
     earlier: List[Any] = []
     seen_names: Dict[Any, str] = {}
     for b, r in enumerate(recipes):
@@ -237,13 +238,25 @@ def strict_violation(recipes: List[Any], names: bool = True) -> Optional[str]:
                 for n in iter_definitions(t):
                     if isinstance(n, R.SubRecipe):
                         for nm in n.output_names:
-                            key = normalise_output_name(nm)
+                            key = name_key(nm)
                             if key in seen_names:
                                 return f"output name {str(nm)!r} defined twice (ignoring case)"
                             seen_names[key] = str(nm)
             if isinstance(t, R.SubRecipe):
                 earlier.append(t)
     return None
+
+
+def name_key(nm: Any) -> Tuple[Any, ...]:
+    """An output name ignoring letter case and surrounding blanks - computed here, NOT with the compiler's own
+    normalise_output_name / ScaledValueString.lower (the oracle must not inherit their mistakes): every text part
+    lower-cased with str.lower, blanks stripped at both ends, numbers compared by value."""
+    parts = list(nm._string)
+    if parts and isinstance(parts[0], str):
+        parts[0] = parts[0].lstrip()
+    if parts and isinstance(parts[-1], str):
+        parts[-1] = parts[-1].rstrip()
+    return tuple(p.lower() if isinstance(p, str) else ("num", p) for p in parts if p != "")
 
 
 def names_exact(recipes: List[Any]) -> bool:
